@@ -1229,6 +1229,12 @@ func ruleR0412(c *Ctx) {
 			if !ok {
 				return true
 			}
+			// the implementation handed to a helper that runs it: foldCall(ast, closure.Func, args, line)
+			if d := funcValueExec(c, fg, call); d != nil {
+				kind, origin := classify(fd, d)
+				report(fname, kind, origin, call.Pos())
+				return true
+			}
 			sel, ok := ast.Unparen(call.Fun).(*ast.SelectorExpr)
 			if !ok {
 				return true
